@@ -26,7 +26,8 @@ const URIS: &[&str] = &[
     "file:///w/a.st", "file:///w/b.st", "file:///w/sub/c.iec", "untitled:Untitled-1", "http://example.com/x.st", "file:///w/d%20e.st", "file:///w/f01.st", "file:///w/f02.st", "file:///w/f03.st",
     "file:///w/f04.st", "file:///w/f05.st", "file:///w/f06.st", "file:///w/f07.st", "file:///w/f08.st", "file:///w/f09.st", "file:///w/%C3%BC.st", "file:///W/A.ST",
 ];
-const UNKNOWN_REQUESTS: &[&str] = &["textDocument/hover", "workspace/symbol", "textDocument/completion", "textDocument/definition", "custom/doesNotExist", "$/unknownRequest"];
+// (a life-cycle request repeated in mid-session - a second `initialize` - is a request like any other: one answer)
+const UNKNOWN_REQUESTS: &[&str] = &["textDocument/hover", "workspace/symbol", "textDocument/completion", "textDocument/definition", "custom/doesNotExist", "$/unknownRequest", "initialize", "client/registerCapability", "workspace/configuration", "window/showMessageRequest"];
 const UNKNOWN_NOTIFICATIONS: &[&str] = &["$/setTrace", "textDocument/didClose", "textDocument/didSave", "workspace/didChangeConfiguration", "custom/note", "$/cancelRequest"];
 /// every client-to-server method name of LSP 3.17 that the server neither implements nor needs for
 /// its life cycle (requests and notifications alike): each may arrive WITH an id - then it is a
@@ -60,6 +61,7 @@ fn params_for(method: &str, uri: &str) -> Value {
     match method {
         "textDocument/hover" | "textDocument/completion" | "textDocument/definition" => json!({"textDocument": {"uri": uri}, "position": {"line": 0, "character": 0}}),
         "workspace/symbol" => json!({"query": "x"}),
+        "initialize" => json!({"processId": null, "rootUri": null, "capabilities": {}}),
         "$/setTrace" => json!({"value": "off"}),
         "textDocument/didClose" => json!({"textDocument": {"uri": uri}}),
         "textDocument/didSave" => json!({"textDocument": {"uri": uri}}),
